@@ -306,6 +306,15 @@ func (h *queryHarness) Run(t *testing.T, ci any) *Outcome {
 	case !er.done, er.res.Deadlock:
 		return mk("hang", "%s", joinLines(er.res.Stuck, 8))
 	}
+	if info.Ambiguous != "" && h.prop == "C10" && strings.HasPrefix(info.Ambiguous, "a binding introduced by an OPTIONAL") && len(c.Q.GroupBy) == 0 && er.err == nil {
+		// What a later clause matches when it re-uses a binding an OPTIONAL clause left NULL is not settled by the
+		// property; that OPTIONAL clauses never REMOVE rows is. When everything from the first such clause on is OPTIONAL,
+		// the solutions of the pattern before it are exactly the distinct rows of the result over that pattern's bindings.
+		if v := h.optionalKeepsRows(t, c, data, mk); v != nil {
+			return v
+		}
+		o.stat("judged_by_row_preservation_only", 1)
+	}
 	if info.Ambiguous != "" {
 		o.stat("not_judged", 1)
 		if strings.HasPrefix(info.Ambiguous, "a FROM graph does not exist") && er.err == nil {
@@ -420,6 +429,75 @@ func (h *queryHarness) Run(t *testing.T, ci any) *Outcome {
 
 // altReference evaluates the reference under one of the two relaxed
 // semantics that name known findings (never used to judge).
+// optionalKeepsRows: see the call site. The query is re-executed with the bindings of the pattern prefix as projection.
+func (h *queryHarness) optionalKeepsRows(t *testing.T, c *QueryCase, data map[string][]*triple.Triple, mk func(string, string, ...any) *Outcome) *Outcome {
+	introduced := map[string]bool{}
+	have := map[string]bool{}
+	k := -1
+	for i, cl := range c.Q.Where {
+		for _, b := range clauseBindings(cl) {
+			if introduced[b] && k < 0 {
+				k = i
+			}
+		}
+		if k >= 0 {
+			break
+		}
+		for _, b := range clauseBindings(cl) {
+			if cl.Opt && !have[b] {
+				introduced[b] = true
+			}
+			have[b] = true
+		}
+	}
+	if k <= 0 {
+		return nil
+	}
+	for _, cl := range c.Q.Where[k:] {
+		if !cl.Opt {
+			return nil // a mandatory clause may remove rows
+		}
+	}
+	prefix := *c.Q
+	prefix.Where = append([]QClause{}, c.Q.Where[:k]...)
+	prefix.Proj, prefix.OrderBy, prefix.Limit, prefix.Having = nil, nil, "", ""
+	for _, b := range patternBindings(prefix.Where) {
+		prefix.Proj = append(prefix.Proj, Proj{B: b})
+	}
+	cols, want, info := refQuery(&prefix, data)
+	if info.Ambiguous != "" || !info.MultDefined {
+		return nil
+	}
+	full := *c.Q
+	full.Proj, full.OrderBy, full.Limit, full.Having = prefix.Proj, nil, "", ""
+	er := execStatement(t, c.Graphs, full.render(), c.Knobs, nil, nil)
+	if er.res == nil || er.err != nil || er.res.StepCap || !er.done {
+		return nil
+	}
+	got, err := engineRows(er.tbl, cols, nil)
+	if err != nil {
+		return nil
+	}
+	g, w := distinct(got), distinct(refRowKeys(want))
+	if !equalStrings(g, w) {
+		// the known finding "an OPTIONAL clause whose extraction cannot apply still binds its other new bindings"
+		// changes the prefix solutions themselves: name it, do not report it as something new
+		lenientOptional = true
+		_, alt, ainfo := refQuery(&prefix, data)
+		lenientOptional = false
+		if ainfo.Ambiguous == "" && equalStrings(g, distinct(refRowKeys(alt))) {
+			return mk("optional-inapplicable-extraction-partial-match", "an OPTIONAL clause whose extraction cannot apply to a candidate triple still binds its other new bindings from that triple\nengine: %q\nreference: %q", g, w)
+		}
+		extra, missing := multisetDiff(g, w)
+		cls := "optional-removes-rows"
+		if len(missing) == 0 {
+			cls = "optional-invents-rows"
+		}
+		return mk(cls+":chained-optional", "over the bindings of the pattern before the first OPTIONAL clause that re-uses an OPTIONAL binding, the result must hold exactly that pattern's solutions: missing=%q extra=%q\nre-executed as: %s", missing, extra, full.render())
+	}
+	return nil
+}
+
 func (h *queryHarness) altReference(c *QueryCase, data map[string][]*triple.Triple, which string) []string {
 	switch which {
 	case "zones":
